@@ -38,6 +38,29 @@ theorem less_guards : guardsOf "heapQueue.Less" =
     ["if:pq.items[i].Priority==pq.items[j].Priority", "ret:pq.items[i].Index<pq.items[j].Index",
      "ret:pq.items[i].Priority<pq.items[j].Priority"] := by decide
 
+/-- the FIFO model (Model/Fifo.lean) is a transcription of exactly these branches and calls of queue.go / chunk.go; the white-box
+    differential compares behaviour on the operations it knows, this theorem reports a changed or added code path -/
+theorem fifo_guards :
+    guardsOf "Queue.Enqueue" = ["if:q.closed.Load()", "if:!ok", "if:q.writeChunk.Push(typedItem)", "if:q.writeChunk.Push(typedItem)"] ∧
+    guardsOf "Queue.Dequeue" = ["if:ok", "if:q.readChunk.Next!=nil", "if:ok"] ∧
+    guardsOf "Queue.Len" = ["if:writeCount<readCount"] ∧
+    guardsOf "Chunk.Push" = ["if:c.IsFull()"] ∧ guardsOf "Chunk.Pop" = ["if:c.IsEmpty()"] := by decide
+theorem fifo_calls :
+    callsOf "Queue.Enqueue" = ["Load", "Lock", "Unlock", "Push", "Add", "Cap", "min", "Push", "Add"] ∧
+    callsOf "Queue.Dequeue" = ["Lock", "Unlock", "Pop", "Add", "Pop", "Add", "new"] ∧
+    callsOf "Queue.Purge" = ["Lock", "Unlock", "Store", "Store"] := by decide
+/-- the functions of the container types (queues, chunks, heap, idle list, manager) are the ones the models transcribe: a new
+    method that changes a representation behind the models' back is reported -/
+theorem container_funcs : containerFuncs =
+    ["Chunk.Cap", "Chunk.IsFull", "Chunk.Pop", "Chunk.Push", "List.Back", "List.Front", "List.Init", "List.InsertAfter", "List.Len",
+     "List.NodeSlice", "List.PopBack", "List.PopBackIfLonger", "List.PopFront", "List.PushBack", "List.PushFront", "List.PushNode",
+     "List.Remove", "List.insertValue", "Manager.Count", "Manager.GetMaxLenItem", "Manager.GetMinLenItem", "Manager.GetRoundRobinItem",
+     "Manager.Len", "Manager.Register", "Manager.UnregisterItem", "PriorityQueue.Close", "PriorityQueue.Dequeue", "PriorityQueue.Enqueue",
+     "PriorityQueue.Len", "PriorityQueue.Purge", "PriorityQueue.Values", "Queue.Close", "Queue.Dequeue", "Queue.Enqueue", "Queue.Len",
+     "Queue.Purge", "Queue.Values", "heapQueue.Len", "heapQueue.Less", "heapQueue.Pop", "heapQueue.Push"] := by decide
+theorem pq_guards :
+    guardsOf "PriorityQueue.Enqueue" = ["if:q.closed.Load()", "if:!ok"] ∧ guardsOf "PriorityQueue.Dequeue" = ["if:q.internal.Len()==0"] := by decide
+
 -- ---------------------------------------------------------------- Res model (C02, C06, C09)
 theorem reserve_skeleton : skeletonOf "worker.reserve" =
     ["atomic:w.curProcessing:Load", "atomic:w.concurrency:Load", "atomic:w.curProcessing:CompareAndSwap", "atomic:w.status:Load", "atomic:w.concurrency:Load"] := by decide
